@@ -56,7 +56,8 @@ THEOREMS['C04'] = ['FB.C04_exists_iff', 'FB.C04_not_both', 'FB.C04_listDir_iff',
                    'FB.BuildDirs.preClean_isFile_iff', 'FB.BuildDirs.isRemoved_specR', 'FB.BuildDirs.checkMaybeRemoved_specR',
                    'FB.BuildDirs.handleDirExists_qinvR', 'FB.BuildDirs.init_qinvR', 'FB.BuildDirs.hasCount_iff_live',
                    'FB.C04_view_wellformed', 'FB.C04_build_view_wellformed', 'FB.wf_visible', 'FB.bfSetup_good', 'FB.wf_preClean',
-                   'FB.C04_target_hidden_while_running', 'FB.C04_target_visible_after_return', 'FB.C04_target_gone_after_failure']
+                   'FB.C04_target_hidden_while_running', 'FB.C04_target_visible_after_return', 'FB.C04_target_gone_after_failure',
+                   'FB.C04_walk_consistent', 'FB.walkEntryOf_lists', 'FB.C04_walk_order']
 THEOREMS['C02'] = ['FB.C02_rolledBack_frame', 'FB.C02_rolledBack_files', 'FB.C02_spec_build_raises', 'FB.Backups.restoreAll_spec',
                    'FB.Backups.restoreOne_self', 'FB.Backups.restoreOne_other', 'FB.Backups.backUp_file',
                    'FB.Rollback.rollBack_restores_files', 'FB.Rollback.removeNew_spec', 'FB.Rollback.restoreAll_file_from',
@@ -75,7 +76,7 @@ THEOREMS['C11'] = ['FB.Heap.C11_records_immutable', 'FB.Heap.C11_records_immutab
                    'FB.Heap.read_frame', 'FB.Heap.copy_faithful', 'FB.Heap.read_alloc', 'FB.Heap.alloc_post', 'FB.Heap.needs_argsIn', 'FB.Heap.needs_argsOut', 'FB.Heap.needs_retIn',
                    'FB.Heap.needs_retOut', 'FB.Heap.needs_retOut_cached', 'FB.Heap.needs_queryOut']
 THEOREMS['C10'] = ['FB.C10_success', 'FB.C10_failure', 'FB.C10_setup', 'FB.MakeDirs.makeDirs_error', 'FB.MakeDirs.loop_error']
-THEOREMS['C12'] = ['FB.C12_preClean_frame', 'FB.C12_clean_noop_without_cache', 'FB.C12_clean_idempotent',
+THEOREMS['C12'] = ['FB.C12_build_after_clean', 'FB.C12_preClean_frame', 'FB.C12_clean_noop_without_cache', 'FB.C12_clean_idempotent',
                    'FB.C12_impl_clean_is_preClean', 'FB.BuildDirs.preClean_gone_iff', 'FB.BuildDirs.preClean_isFile_iff',
                    'FB.BuildDirs.preClean_isDir_iff', 'FB.preClean_recovers']
 THEOREMS['C15'] = ['FB.C15_spec_build_refused', 'FB.C15_impl_build_refused', 'FB.C15_spec_clean_refused']
@@ -348,7 +349,7 @@ def run_hist_prop(prop, tier, salt, n_quick, n_thorough, families=gen.SCENARIOS,
 
 # ---------------------------------------------------------------------------------------------
 QUERY_DENSE = dict(gen.DEFAULT_PROFILE, p_q=0.7, p_bf=0.14, p_sb=0.08, p_raise=0.02, p_if=0.06, max_stmts=8)
-RICH_ARGS = dict(gen.DEFAULT_PROFILE, args=[0, 1, 1.0, True, False, None, 'x', '', [1, 2], (1, 2), [1.0, 2], {'k': 1},
+RICH_ARGS = dict(gen.DEFAULT_PROFILE, args=[0, 1, 1.0, True, False, None, 'x', '', [1, 2], (1, 2), [1.0, 2], {'k': 1}, {8: 'a', '8': 'b'}, {'8': 'b'}, {'8': 'a'}, {None: 1, 'null': 2},
                                            {'k': 1.0}, {1: 'a'}, {'1': 'a'}, {'a': 1, 'b': 2}, {'b': 2, 'a': 1},
                                            2 ** 70, -0.0, 0, [[]], [()], {'a': [1, (2,)]}, 'é', '\U0001F600'],
                  kws=[{}, {}, {'k': 1}, {'k': True}, {'k': 1.0}, {'k': [1, (2,)]}, {'a': 1, 'b': 2}, {'b': 2, 'a': 1}, {'k': None}, {'k': 0}, {'k': False}, {'j': None}, {'j': 'x'}, {'m': None, 'k': 1}],
@@ -473,7 +474,7 @@ def check_C06(tier):
 
 def check_C07(tier):
     from . import pathcheck
-    return run_hist_prop_then_threads('C07', tier, 7, 700, 30000, families=[gen.scen_dups, gen.scen_identity], per_family=(120, 2500), prof=RICH_ARGS,
+    return run_hist_prop_then_threads('C07', tier, 7, 700, 30000, families=[gen.scen_dups, gen.scen_identity], per_family=(150, 2500), prof=RICH_ARGS,
                          p_fail=0.05, p_clean=0.0,
                          unit_tie=('FB.PathNorm.abspath (abspath_clean, abspath_idempotent, loop_skip, loop_detour) describes '
                                    'FileBuilder._sanitize_filename', pathcheck.run))
